@@ -305,7 +305,7 @@ fn extra_programs() -> Vec<ArgCase> {
     }
     // the element an array-element argument denotes is fixed when the call is made: its subscripts are
     // evaluated once, whatever the callee does to the variables in them
-    for variant in 0..8 {
+    for variant in 0..10 {
         let mut b = B::new();
         let p_int = |n: &str| Param { name: n.into(), ty: None, is_array: false };
         let mut subs = vec![];
@@ -370,6 +370,21 @@ fn extra_programs() -> Vec<ArgCase> {
                 main.push(b.assign(var("B%"), num(0)));
                 main.push(b.s(K::Call("SetBoth".into(), vec![el(var("I%")), bin(BinOp::Add, call("Twice%", vec![var("I%")]), num(0))])));
                 "a later argument is a FUNCTION that changes the subscript variable by reference"
+            }
+            8 => {
+                // the targets of READ are assigned one after the other: the second one's subscript is the value just read
+                main.push(b.s(K::Read(vec![var("I%"), el(var("I%"))])));
+                main.push(b.s(K::Data(vec![DataItem::Num("3".into()), DataItem::Num("77".into())])));
+                "READ I%, A%(I%): the subscript is the value just read"
+            }
+            9 => {
+                main.push(b.s(K::Open { name: st("in.txt"), mode: FileMode::Output, handle: 1, len: None }));
+                main.push(b.s(K::Print { dev: Dev::File(1), using: None, items: vec![PItem::E(st("2,55,3,66"))] }));
+                main.push(b.s(K::Close(vec![1])));
+                main.push(b.s(K::Open { name: st("in.txt"), mode: FileMode::Input, handle: 1, len: None }));
+                main.push(b.s(K::Input(Some(1), vec![var("I%"), el(var("I%")), var("I%"), el(var("I%"))])));
+                main.push(b.s(K::Close(vec![1])));
+                "INPUT #1, I%, A%(I%), I%, A%(I%): each subscript is the value just read"
             }
             _ => {
                 // the callee fails, the module-level handler changes the subscript variable and resumes in the callee
